@@ -3,11 +3,15 @@
 
   What is modelled, statement by statement:
 
-  * `key := fmt.Sprintf("%s:%v", f.Key, f.Props)` — `classKey`.  `%v` of a `[][]string` prints
-    `[[a b] [c d]]` (no quoting), so two different qualifier lists can give the same text
-    (`["a b"]` and `["a", "b"]`); the model keeps exactly that text.
+  * `key := fmt.Sprintf("%q:%q", f.Key, f.Props)` — `classKey`.  `%q` renders a string with
+    `strconv.Quote` and a `[][]string` as `[["a" "b"] ["c"]]`.  `quoteChars` models `Quote`
+    **for printable ASCII** (every byte `0x20..0x7e`; `"` and `\` are escaped with a backslash)
+    and leaves every other character as it is, which is also what Go does for printable
+    non-ASCII runes; control characters, `0x7f`, non-printable runes and invalid UTF-8 (Go:
+    `\t`, `\x7f`, `\u…` escapes) are outside the modelled domain and never generated.
+    The rendering is injective (`Gts.C12.classKey_inj`).
   * `index[key] = append(index[key], i)` — `memberIdx t k`: the indices of the class in
-    increasing order.  The *capacity* of that slice matters later (see `goCap`).
+    increasing order.
   * `for _, indices := range index` — Go iterates the map in an unspecified order.  The model
     function `repairOrd` takes the order as an argument (`repair` uses first occurrence);
     `Gts.C12.repair_order_indep` proves that the result is the same for every order.
@@ -18,15 +22,12 @@
     — `Loc.pushAll` (model of `LocationList.Push`, Gts/Model/Loc.lean).
   * `locs = list.Slice()` — the pushed list, **or `[nil]` for an empty list** (`sliceLen`,
     and the `nil` flag when that `nil` is written into a feature).
-  * `if len(locs) < len(indices) { gg[indices[i]].Loc = loc }`.
-  * `keep = append(keep, indices[:len(locs)]...)` — a *checked* slice expression: it panics when
-    `len(locs) > cap(indices)` and silently re-slices into the spare capacity when
-    `len(indices) < len(locs) ≤ cap(indices)`.  The spare capacity of a slice grown by `append`
-    is zeroed by the runtime (`growslice` clears the tail beyond the new length), so the extra
-    indices are `0`.
-  * `sort.Sort(sort.IntSlice(keep))`, then the in-place compaction `gg[i] = gg[j]` (which reads
-    *already overwritten* entries when `keep` contains duplicates; it panics when `keep` is
-    longer than the table) and `gg = gg[:len(keep)]`.
+  * `if len(locs) < len(indices) { gg[indices[i]].Loc = loc …; indices = indices[:len(locs)] }`
+    and `keep = append(keep, indices...)` (fix df20fbf: a class whose pushed list is not
+    shorter than the class is kept as it is; before, `indices[:len(locs)]` panicked or
+    re-sliced into spare capacity).
+  * `sort.Sort(sort.IntSlice(keep))`, then the in-place compaction `gg[i] = gg[j]` (modelled
+    with its index checks; `Gts.C12.no_panic` proves they never fail) and `gg = gg[:len(keep)]`.
 -/
 import Gts.Model.Seq
 namespace Gts
@@ -41,14 +42,32 @@ inductive RepairOutcome where
   | nilLoc
   deriving Repr, Inhabited
 
-/-- `fmt` verb `%v` on a `[]string` -/
-def fmtRow (r : List String) : String := "[" ++ " ".intercalate r ++ "]"
+/-- `strconv.Quote` without the surrounding quotes, on characters (printable ASCII exactly) -/
+def escChars : List Char → List Char
+  | [] => []
+  | c :: cs => (if c = '"' ∨ c = '\\' then ['\\', c] else [c]) ++ escChars cs
 
-/-- `fmt` verb `%v` on `Props` (`[][]string`) -/
-def fmtProps (ps : List (List String)) : String := "[" ++ " ".intercalate (ps.map fmtRow) ++ "]"
+/-- `%q` on a string -/
+def quoteChars (s : List Char) : List Char := '"' :: escChars s ++ ['"']
 
-/-- `fmt.Sprintf("%s:%v", f.Key, f.Props)` -/
-def classKey (f : Feature) : String := f.key ++ ":" ++ fmtProps f.props
+/-- the elements of a slice under a `fmt` verb: separated by one space -/
+def sepChars {α} (enc : α → List Char) : List α → List Char
+  | [] => []
+  | [x] => enc x
+  | x :: y :: r => enc x ++ ' ' :: sepChars enc (y :: r)
+
+/-- a slice under a `fmt` verb: `[e1 e2 …]` -/
+def bracketChars {α} (enc : α → List Char) (l : List α) : List Char := '[' :: sepChars enc l ++ [']']
+
+/-- `%q` on a `[]string` -/
+def fmtRowChars (r : List String) : List Char := bracketChars (fun v : String => quoteChars v.toList) r
+
+/-- `fmt.Sprintf("%q:%q", f.Key, f.Props)` as characters -/
+def classKeyChars (f : Feature) : List Char :=
+  quoteChars f.key.toList ++ ':' :: bracketChars fmtRowChars f.props
+
+/-- `fmt.Sprintf("%q:%q", f.Key, f.Props)` -/
+def classKey (f : Feature) : String := String.ofList (classKeyChars f)
 
 /-- the distinct strings of a list, in first-occurrence order -/
 def dedup : List String → List String
@@ -71,16 +90,6 @@ def memberIdx (t : Table) (k : String) : List Nat :=
 def groups (t : Table) : List (List Nat) := (classKeys t).map (memberIdx t)
 
 end Table
-
-/-- `cap(s)` of a slice built by `n` single-element `append`s starting from `nil`, for 8-byte
-elements: Go's `growslice` doubles below 256 elements (1, 2, 4, 8, …) and the malloc size
-classes contain every power of two up to 2048 bytes, so the rule is exact for `n ≤ 512`
-(checked against go1.23). -/
-def goCap : Nat → Nat
-  | 0 => 0
-  | n + 1 =>
-    let c := goCap n
-    if n < c then c else if c = 0 then 1 else 2 * c
 
 /-- inner loop of Go's `insertionSort`: the new element moves left while it is `Less` than its
 predecessor.  `rpre` is the already sorted prefix, *reversed* (head = last element). -/
@@ -129,22 +138,16 @@ def classForce (ff : Table) (idx : List Nat) : Bool :=
     | none => false
   | [] => false
 
-/-- `keep = append(keep, indices[:n]...)`: `none` = the slice expression panics -/
-def sliceIndices (idx : List Nat) (n : Nat) : Option (List Nat) :=
-  if goCap idx.length < n then none
-  else if n ≤ idx.length then some (idx.take n)
-  else some (idx ++ List.replicate (n - idx.length) 0)
-
-/-- one iteration of `for _, indices := range index`; `none` = panic -/
-def classStep (ff : Table) (st : RepairSt) (idx : List Nat) : Option RepairSt :=
+/-- one iteration of `for _, indices := range index` -/
+def classStep (ff : Table) (st : RepairSt) (idx : List Nat) : RepairSt :=
   let p := pushedOf (classForce ff idx) (classLocs st.gg idx)
   let n := sliceLen p
-  match sliceIndices idx n with
-  | none => none
-  | some kept =>
-    some { gg := if n < idx.length then writeLocs st.gg (idx.zip p) else st.gg
-           keep := st.keep ++ kept
-           nil := st.nil || (decide (n < idx.length) && p.isEmpty) }
+  if n < idx.length then
+    { gg := writeLocs st.gg (idx.zip p)
+      keep := st.keep ++ idx.take n
+      nil := st.nil || p.isEmpty }
+  else
+    { st with keep := st.keep ++ idx }
 
 /-- the compaction loop `for _, j := range keep { gg[i] = gg[j]; i++ }` on the shared array;
 `none` = index out of range -/
@@ -161,12 +164,10 @@ def compact (gg : Table) (keep : List Nat) : Option Table :=
 
 /-- `Repair(ff)` when the map `index` is iterated in the order `cs` -/
 def repairOrd (ff : Table) (cs : List (List Nat)) : RepairOutcome :=
-  match cs.foldlM (classStep ff) ⟨ff, [], false⟩ with
+  let st := cs.foldl (classStep ff) ⟨ff, [], false⟩
+  match compact st.gg (sortNat st.keep) with
   | none => .panic
-  | some st =>
-    match compact st.gg (sortNat st.keep) with
-    | none => .panic
-    | some gg => if st.nil then .nilLoc else .ok gg
+  | some gg => if st.nil then .nilLoc else .ok gg
 
 /-- `Repair(ff)` (feature.go:22-71) -/
 def repair (ff : Table) : RepairOutcome := repairOrd ff (Table.groups ff)
